@@ -232,3 +232,19 @@ func matchGroup(routes []*Route, host, path string, o MatchOpts) (MatchResult, b
 	}
 	return MatchResult{Backtracks: bt + m.Backtracks}, false
 }
+
+// MatchPathOnly routes over the path-only routes of the method, ignoring hostname routes (the fallback step alone).
+func (s *Set) MatchPathOnly(method, path string, o MatchOpts) MatchResult {
+	var pathRoutes []*Route
+	for _, r := range s.sorted() {
+		if r.Method == method && r.Pat.Host == "" {
+			pathRoutes = append(pathRoutes, r)
+		}
+	}
+	if len(pathRoutes) > 0 {
+		if res, ok := matchGroup(pathRoutes, "", path, o); ok {
+			return res
+		}
+	}
+	return MatchResult{}
+}
